@@ -287,6 +287,11 @@ def clear (st : State) (clearConstants : Bool) : State :=
             operative := [],
             constants := if clearConstants then initConstants else st.constants }
 
+/-- what `_config_str` prints of a store: per key the literally representable parameters
+    (constant look-ups have no section; macro sections are C05's) -/
+def printable (s : Store) : Store :=
+  (s.filter (fun kv => kv.1.2 != constSel)).map (fun kv => (kv.1, kv.2.filter (fun pv => pv.2.representable)))
+
 /-- `singleton_value(key, constructor)` (2757-2766): look up or construct-and-cache. -/
 def singletonUse (st : State) (key : String) (hasCtor : Bool) : Except Err (State × Val) :=
   match AList.lookup key st.singletons with
@@ -382,6 +387,7 @@ mutual
         (st, match what with
           | "locked" => .flag st.locked
           | "operative" => .store st.operative
+          | "opstr" => .store (State.printable st.operative)
           | "config" => .store st.config
           | "registry" => .names (st.registry.keys.map (fun s => ".".intercalate s))
           | "constants" => .names (st.constants.keys.map (fun s => ".".intercalate s))
